@@ -71,7 +71,6 @@ var defaultStubbed = []string{
 // (pure accessors).
 var defaultAllow = []string{
 	"(*flag.stringValue).String", "(*go/ast.Ident).String", "(io/fs.FileMode).IsDir",
-	"(*regexp.Regexp).MatchString",
 }
 
 // NewEngine prepares an exploration of the named harness function.
